@@ -178,8 +178,8 @@ def session(pa, rng, length, max_obj=5):
                 else:
                     e.update(op="reset_bounds", args=[o])
                     c.reset_bounds()
-            except (ValueError, KeyError) as ex:
-                e["out"] = type(ex).__name__
+            except Exception:
+                e["out"] = "rejected"
             emit(e)
             continue
         if op == "fast_gamma":
@@ -309,6 +309,9 @@ def run(tier, rep):
         rep.add_tlc(res)
         firsts = {}
         for t, l, name in verdicts:
+            if name in contmodel.BEYOND:
+                rep.beyond(f"session.{name}.{part[t][l]['op']}.{part[t][l].get('kind', '')}", {"event_index": l})
+                continue
             firsts.setdefault(t, (l, name))
         for t, (l, name) in firsts.items():
             tr = part[t]
